@@ -205,7 +205,7 @@ func TestVerifC13_ed25519(t *testing.T) {
 			r.Count("result_identity", 1)
 		}
 	})
-	r.Sample(map[string]string{"op": "fixedMult", "k": "l-1"})
+	r.Sample(map[string]string{"op": "fixedMult", "k": "l-1", "k_le": verifmc.FullHex(fpx.ToLE(new(big.Int).Sub(N, big.NewInt(1)), 32))})
 
 	// ---- doubleMult(Q, m, n) = mB + nQ
 	ms := curvealpha.Core(sc)
